@@ -13,7 +13,8 @@ use serde_json::{json, Value};
 
 pub const ALPHABET: [char; 18] = ['"', '\\', '~', '%', '(', ')', ';', '#', '\'', '\n', '\t', '\u{1}', '\u{7f}', 'é', '日', 'a', ' ', '*'];
 
-pub const CARRIERS: [&str; 30] = [
+pub const CARRIERS: [&str; 35] = [
+    "pool+long", "xattr+long", "xattr-match-value+long", "printf-literal+long", "name+long",
     "name+framed", "iname+framed", "path+framed", "ipath+framed", "pool+framed", "xattr+framed", "xattr-match-attr+framed", "xattr-match-value+framed", "printf-literal+framed", "printf-octal+framed",
     "strftime-A+framed", "strftime-T+framed",
     "printf-octal", "name", "iname", "path", "ipath", "pool", "xattr", "xattr-match-attr", "xattr-match-value", "fprint", "fprint0", "fprintf-file", "printf-literal", "fprintf-literal", "strftime-A", "strftime-C",
@@ -32,6 +33,17 @@ fn neutral(s: &str) -> String {
 
 /// Build the tree carrying `s` at `carrier`; None if the carrier cannot hold it.
 fn tree_for(carrier: &str, s: &str) -> Option<E> {
+    if let Some(b) = carrier.strip_suffix("+long") {
+        // the carrier at the end of a long policy body (> 1000 bytes) that already contains literals
+        // ending in a backslash, containing blanks and quotes
+        let t = tree_for_base(b, s)?;
+        let mut e = E::or(E::T(Tst::Pool("fast\\".into())), E::T(Tst::Xattr("a \"b\" c".into())));
+        for i in 0..60u32 {
+            e = E::or(e, E::T(Tst::Uid(Cmp::Eq, i)));
+        }
+        // the chain is true for every file, so the carrier is always evaluated
+        return Some(E::and(E::or(e, E::T(Tst::True)), t));
+    }
     let (base, framed) = base_carrier(carrier);
     let t = tree_for_base(base, s)?;
     Some(if framed { E::and(t, E::A(Act::Print0)) } else { t })
@@ -123,6 +135,7 @@ fn strings(x: &Sx, out: &mut Vec<String>) {
 /// carriers whose string lives in a test are also compiled next to an action that selects framed
 /// output (the two code generators are separate): carrier name with the suffix "+framed"
 fn base_carrier(carrier: &str) -> (&str, bool) {
+    let carrier = carrier.strip_suffix("+long").unwrap_or(carrier);
     match carrier.strip_suffix("+framed") {
         Some(b) => (b, true),
         None => (carrier, false),
